@@ -275,6 +275,45 @@ def detect_model(repo: Repo):
     return "presence", problems, {"priority": order, "default_os_linesep": default_ok}
 
 
+def _stmt_chain(loop: ast.For, node: ast.AST) -> list:
+    """[(statement list, index)] from the loop body down to the statement that contains *node*."""
+    chain = []
+
+    def find(stmts):
+        for i, st in enumerate(stmts):
+            if node is st or any(node is x for x in ast.walk(st)):
+                chain.append((stmts, i))
+                for fld in ("body", "orelse", "finalbody"):
+                    sub = getattr(st, fld, None)
+                    if isinstance(sub, list) and sub and isinstance(sub[0], ast.stmt) and any(node is x for s2 in sub for x in ast.walk(s2)):
+                        find(sub)
+                return
+
+    find(loop.body)
+    return chain
+
+
+def _leaves_after(loop: ast.For, call: ast.Call) -> bool:
+    """After the statement containing *call*, does the path reach break / return before the loop body ends?"""
+    chain = _stmt_chain(loop, call)
+    for stmts, i in reversed(chain):
+        for st in stmts[i + 1:]:
+            if isinstance(st, (ast.Break, ast.Return)):
+                return True
+            if isinstance(st, ast.Continue):
+                return False
+    return False
+
+
+def _guard_of(loop: ast.For, call: ast.Call):
+    """The test of the innermost `if` whose BODY contains *call* (None when unguarded or in an else branch)."""
+    best = None
+    for n in ast.walk(loop):
+        if isinstance(n, ast.If) and any(call is x for st in n.body for x in ast.walk(st)):
+            best = n.test
+    return best
+
+
 def _leaves_loop_without_match(stmts: list) -> bool:
     """Does the path through *stmts* on which every `if` test is FALSE reach a break / return?"""
     for st in stmts:
@@ -360,6 +399,20 @@ def rule_shebang(ck: Check, repo: Repo, rid: str = "R3") -> None:
             if isinstance(lp, ast.For) and re.fullmatch(r"\w+\.SHEBANGS", ast.unparse(lp.iter)):
                 bad = _leaves_loop_without_match(lp.body)
                 r.instance(f"shebang-loop:{name}", {"function": q, "no_match_path_leaves_the_loop": bad}, q)
+                # ... and a branch that extracted leaves the loop: a second extraction would overwrite the first (`shebang, text =
+                # _extract_shebang(...)` rebinds the kept declaration) - `<?xml …?>` is lost when `<!DOCTYPE` follows it
+                for call in [c for c in ast.walk(lp) if isinstance(c, ast.Call) and ast.unparse(c.func) == "_extract_shebang"]:
+                    if not _leaves_after(lp, call):
+                        r.violation(q, "the loop goes on after a declaration was extracted",
+                                    "the next matching entry of SHEBANGS extracts again and rebinds the kept text: the declaration extracted"
+                                    " first is dropped from the file", repo.loc(call))
+                    # the extraction is guarded by the POSITIVE test that the text starts with this entry
+                    guard = _guard_of(lp, call)
+                    r.instance(f"shebang-guard:{name}:{ast.unparse(guard)[:40] if guard is not None else None}", {"function": q}, q)
+                    if guard is not None and isinstance(guard, ast.UnaryOp) and isinstance(guard.op, ast.Not) and ".startswith(" in ast.unparse(guard):
+                        r.violation(q, "the extraction runs when the text does NOT start with the declaration",
+                                    f"`{ast.unparse(guard)[:60]}`: a shebang is never moved above the header - the header is inserted in front of it",
+                                    repo.loc(call))
                 if bad:
                     r.violation(q, "the declaration table is not walked to its end",
                                 "the path on which the current entry does not match reaches a `break`: only the first entry of SHEBANGS is"
